@@ -76,6 +76,16 @@ Proof.
   cbn [Nat.add]. now rewrite N2Nat.id.
 Qed.
 
+(* bytewise form = one message bit at a time *)
+Fixpoint down (n : nat) : list N :=
+  match n with O => [] | S n' => N.of_nat n' :: down n' end.
+
+Lemma down_lt n j : In j (down n) -> j < N.of_nat n.
+Proof.
+  induction n as [|n IH]; cbn [down In]; [tauto|]. intros [<-|H]; [lia|]. specialize (IH H). lia.
+Qed.
+
+
 (* ======================================================================================== *)
 (* MSB first                                                                                *)
 
@@ -180,15 +190,6 @@ Proof.
   now rewrite (tb_high e w i) by (assumption || lia).
 Qed.
 
-(* bytewise form = one message bit at a time *)
-Fixpoint down (n : nat) : list N :=
-  match n with O => [] | S n' => N.of_nat n' :: down n' end.
-
-Lemma down_lt n j : In j (down n) -> j < N.of_nat n.
-Proof.
-  induction n as [|n IH]; cbn [down In]; [tauto|]. intros [<-|H]; [lia|]. specialize (IH H). lia.
-Qed.
-
 Lemma shiftl_split_top b n s : b < 2 ^ N.succ n ->
   N.shiftl b s = N.lxor (if N.testbit b n then N.shiftl 1 (n + s) else 0) (N.shiftl (trunc n b) s).
 Proof.
@@ -205,7 +206,7 @@ Proof.
   - cbn [iter down map fold_left]. change (2 ^ N.of_nat 0) with 1 in Hb.
     assert (b = 0) by lia. subst. now rewrite N.shiftl_0_l, N.lxor_0_r.
   - rewrite iter_S. cbn [down map fold_left]. rewrite Nat2N.inj_succ in *.
-    rewrite (shiftl_split_top b (N.of_nat n) s Hb), N.lxor_assoc, step_m_lxor.
+    rewrite (shiftl_split_top b (N.of_nat n) s Hb), <- N.lxor_assoc, step_m_lxor.
     replace (N.of_nat n + s) with (w - 1) by lia.
     change (step_m w p (N.lxor v (if N.testbit b (N.of_nat n) then N.shiftl 1 (w - 1) else 0)))
       with (feed_m w p v (N.testbit b (N.of_nat n))).
@@ -219,7 +220,10 @@ Qed.
 Lemma byte_m_feed v b : b < 2 ^ 8 ->
   byte_m v b = fold_left (feed_m w p) (byte_bits_msb b) v.
 Proof.
-  intros Hb. unfold byte_m. rewrite (feed_chain_m 8) by (assumption || (cbn; lia)). reflexivity.
+  intros Hb. unfold byte_m. rewrite (feed_chain_m 8 (w - 8) v b).
+  - reflexivity.
+  - change (N.of_nat 8) with 8. lia.
+  - exact Hb.
 Qed.
 
 Lemma crc_bits_m_cons b data v :
@@ -234,3 +238,375 @@ Proof.
 Qed.
 
 End MSB.
+
+(* ---------------------------------------------------------------------------------------- *)
+(* the model's MSB-first table generator and update against the reference                    *)
+
+Lemma trunc_trunc_shiftl1 w ww v : w <= ww ->
+  trunc w (trunc ww (N.shiftl v 1)) = trunc w (N.shiftl (trunc w v) 1).
+Proof.
+  intros Hle. apply N.bits_inj; intro i. rewrite !tb_trunc, !tb_shiftl, tb_trunc.
+  destruct (N.ltb_spec i w); destruct (N.ltb_spec i ww); destruct (N.leb_spec 1 i);
+    destruct (N.ltb_spec (i - 1) w); cbn [andb]; try lia; reflexivity.
+Qed.
+
+Lemma trunc_lxor_small w a p : p < 2 ^ w -> trunc w (N.lxor a p) = N.lxor (trunc w a) p.
+Proof.
+  intros Hp. apply N.bits_inj; intro i. rewrite tb_trunc, !N.lxor_spec, tb_trunc.
+  destruct (N.ltb_spec i w); cbn [andb]; [reflexivity|].
+  now rewrite (tb_high p w i) by (assumption || lia).
+Qed.
+
+(* the C keeps `value` in a wider variable (unsigned int) for the 8/16-bit tables and only the
+   final cast truncates: the low w bits evolve exactly like the w-bit register *)
+Lemma m_init_step_trunc w ww p v : 1 <= w -> w <= ww -> p < 2 ^ w ->
+  trunc w (m_init_step w ww p v) = step_m w p (trunc w v).
+Proof.
+  intros Hw Hle Hp. unfold m_init_step, step_m. cbv zeta. rewrite sig_m_eqb, tb_trunc.
+  destruct (N.ltb_spec (w - 1) w); [|lia]. cbn [andb].
+  destruct (N.testbit v (w - 1)); cbn [negb].
+  - rewrite trunc_lxor_small by assumption. f_equal. now apply trunc_trunc_shiftl1.
+  - now apply trunc_trunc_shiftl1.
+Qed.
+
+Lemma m_init_iter w ww p n : 1 <= w -> w <= ww -> p < 2 ^ w -> forall v,
+  trunc w (iter n (m_init_step w ww p) v) = iter n (step_m w p) (trunc w v).
+Proof.
+  intros Hw Hle Hp. induction n as [|n IH]; intro v; [reflexivity|].
+  now rewrite !iter_S, IH, m_init_step_trunc.
+Qed.
+
+Lemma m_init_entry_eq k p c : p < 2 ^ bits k -> c < 2 ^ 8 ->
+  m_init_entry k p c = iter 8 (step_m (bits k) p) (N.shiftl c (bits k - 8)).
+Proof.
+  intros Hp Hc. pose proof (bits_ge8 k). pose proof (bits_le_work k).
+  unfold m_init_entry. cbv zeta. rewrite m_init_iter by (assumption || lia). f_equal.
+  assert (Hs : N.shiftl c (bits k - 8) < 2 ^ bits k) by (apply (shiftl_lt _ _ _ 8); [assumption|lia]).
+  rewrite (trunc_small (work_bits k)).
+  - now apply trunc_small.
+  - eapply N.lt_le_trans; [exact Hs|]. apply N.pow_le_mono_r; lia.
+Qed.
+
+Lemma tab_m_entry k p c : p < 2 ^ bits k -> c < 2 ^ 8 ->
+  tab_get (a_crc_m_init k p) c = Some (iter 8 (step_m (bits k) p) (N.shiftl c (bits k - 8))).
+Proof.
+  intros Hp Hc. unfold a_crc_m_init. rewrite tab_get_map by exact Hc. f_equal.
+  now apply m_init_entry_eq.
+Qed.
+
+Lemma land255_lt x : N.land x 255 < 2 ^ 8.
+Proof. rewrite N.land_comm. apply land_lt_l. reflexivity. Qed.
+
+Lemma crcm_byte_correct k p v b : p < 2 ^ bits k -> v < 2 ^ bits k -> b < 2 ^ 8 ->
+  crcm_byte (bits k) (a_crc_m_init k p) v b = Some (byte_m (bits k) p v b).
+Proof.
+  intros Hp Hv Hb. pose proof (bits_ge8 k). unfold crcm_byte.
+  rewrite tab_m_entry by (assumption || apply land255_lt).
+  rewrite byte_m_table by assumption. reflexivity.
+Qed.
+
+Lemma upd_m_correct k p v b : p < 2 ^ bits k -> v < 2 ^ bits k -> b < 2 ^ 8 ->
+  upd_m k (a_crc_m_init k p) v b = Some (byte_m (bits k) p v b).
+Proof.
+  intros Hp Hv Hb. destruct k; try (apply crcm_byte_correct; assumption).
+  (* a_crc8: value = table[value ^ byte] *)
+  cbn [upd_m]. unfold crc8_byte. cbn [bits] in *.
+  rewrite tab_m_entry by (try apply lxor_lt; assumption).
+  unfold byte_m. cbn [bits]. change (8 - 8) with 0. now rewrite !N.shiftl_0_r.
+Qed.
+
+Theorem crc_m_table_eq_bits_aux k p data : p < 2 ^ bits k -> Forall (fun b => b < 2 ^ 8) data ->
+  forall v, v < 2 ^ bits k ->
+  a_crc_m k (a_crc_m_init k p) data v = Some (crc_bits_m (bits k) p data v).
+Proof.
+  intros Hp Hd. pose proof (bits_ge8 k) as H8. induction Hd as [|b data Hb Hd IH]; intros v Hv.
+  - reflexivity.
+  - unfold a_crc_m in *. cbn [crc_loop]. rewrite upd_m_correct by assumption.
+    rewrite IH by (now apply byte_m_lt).
+    rewrite crc_bits_m_cons, <- byte_m_feed by assumption. reflexivity.
+Qed.
+
+(* ======================================================================================== *)
+(* LSB first                                                                                *)
+
+Section LSB.
+Variable w : N.
+Variable rp : N.         (* the mirrored generator *)
+Hypothesis Hw8 : 8 <= w.
+Hypothesis Hrp : rp < 2 ^ w.
+
+Lemma step_l_lxor x y : step_l rp (N.lxor x y) = N.lxor (step_l rp x) (step_l rp y).
+Proof.
+  unfold step_l. cbv zeta. rewrite N.lxor_spec, N.shiftr_lxor.
+  destruct (N.testbit x 0); destruct (N.testbit y 0); cbn [xorb]; xor_solve.
+Qed.
+
+Lemma step_l_lt x : x < 2 ^ w -> step_l rp x < 2 ^ w.
+Proof.
+  intros Hx. unfold step_l. cbv zeta. destruct (N.testbit x 0).
+  - apply lxor_lt; [now apply shiftr_lt|exact Hrp].
+  - now apply shiftr_lt.
+Qed.
+
+Lemma iter_step_l_lt n x : x < 2 ^ w -> iter n (step_l rp) x < 2 ^ w.
+Proof. apply (iter_inv (fun x => x < 2 ^ w)). intros; now apply step_l_lt. Qed.
+
+Lemma step_l_even y : step_l rp (N.shiftl y 1) = y.
+Proof.
+  unfold step_l. cbv zeta. rewrite tb_shiftl. cbn [N.leb N.compare andb].
+  apply N.bits_inj; intro i. rewrite tb_shiftr, tb_shiftl.
+  destruct (N.leb_spec 1 (i + 1)); [|lia]. cbn [andb]. f_equal. lia.
+Qed.
+
+Lemma iter_step_l_shifted n : forall y, iter n (step_l rp) (N.shiftl y (N.of_nat n)) = y.
+Proof.
+  induction n as [|n IH]; intro y.
+  - cbn [iter]. apply N.shiftl_0_r.
+  - rewrite iter_S, Nat2N.inj_succ.
+    replace (N.shiftl y (N.succ (N.of_nat n))) with (N.shiftl (N.shiftl y (N.of_nat n)) 1)
+      by (rewrite N.shiftl_shiftl; f_equal; lia).
+    now rewrite step_l_even.
+Qed.
+
+Definition byte_l (v b : N) : N := iter 8 (step_l rp) (N.lxor v b).
+
+Lemma byte_l_lt v b : v < 2 ^ w -> b < 2 ^ 8 -> byte_l v b < 2 ^ w.
+Proof.
+  intros Hv Hb. apply iter_step_l_lt. apply lxor_lt; [assumption|].
+  eapply N.lt_le_trans; [exact Hb|]. apply N.pow_le_mono_r; lia.
+Qed.
+
+Lemma byte_split_l v b : b < 2 ^ 8 ->
+  N.lxor v b = N.lxor (N.land (N.lxor v b) (N.ones 8)) (N.shiftl (N.shiftr v 8) 8).
+Proof.
+  intros Hb. apply N.bits_inj; intro i.
+  rewrite !N.lxor_spec, N.land_spec, N.lxor_spec, tb_ones, tb_shiftl, tb_shiftr.
+  destruct (N.ltb_spec i 8) as [Hi|Hi].
+  - destruct (N.leb_spec 8 i); [lia|]. cbn [andb]. now rewrite andb_true_r, xorb_false_r.
+  - destruct (N.leb_spec 8 i); [|lia]. cbn [andb].
+    rewrite andb_false_r, xorb_false_l. rewrite (tb_high b 8 i) by assumption.
+    rewrite xorb_false_r. f_equal. lia.
+Qed.
+
+Lemma byte_l_table v b : v < 2 ^ w -> b < 2 ^ 8 ->
+  byte_l v b =
+  trunc w (N.lxor (N.shiftr v 8) (iter 8 (step_l rp) (N.land (N.lxor v b) (N.ones 8)))).
+Proof.
+  intros Hv Hb. unfold byte_l. rewrite (byte_split_l v b Hb) at 1.
+  rewrite (iter_lxor 8 _ step_l_lxor).
+  change 8 with (N.of_nat 8) at 4. rewrite iter_step_l_shifted.
+  rewrite N.lxor_comm. symmetry. apply trunc_small. apply lxor_lt.
+  - now apply shiftr_lt.
+  - apply iter_step_l_lt. rewrite N.land_comm.
+    eapply N.lt_le_trans; [apply (land_lt_l 8); reflexivity|]. apply N.pow_le_mono_r; lia.
+Qed.
+
+Fixpoint lsb_bits (n : nat) (b : N) : list bool :=
+  match n with O => [] | S n' => N.testbit b 0 :: lsb_bits n' (N.shiftr b 1) end.
+
+Lemma split_low_bit b : b = N.lxor (if N.testbit b 0 then 1 else 0) (N.shiftl (N.shiftr b 1) 1).
+Proof.
+  apply N.bits_inj; intro i. rewrite N.lxor_spec, tb_b2n, tb_shiftl, tb_shiftr.
+  destruct (N.eqb_spec i 0) as [->|Hne].
+  - cbn [N.leb N.compare andb]. now rewrite andb_true_r, xorb_false_r.
+  - destruct (N.leb_spec 1 i); [|lia]. cbn [andb]. rewrite andb_false_r, xorb_false_l. f_equal. lia.
+Qed.
+
+Lemma feed_chain_l n : forall v b,
+  iter n (step_l rp) (N.lxor v b) =
+  N.lxor (fold_left (feed_l rp) (lsb_bits n b) v) (N.shiftr b (N.of_nat n)).
+Proof.
+  induction n as [|n IH]; intros v b.
+  - cbn [iter lsb_bits fold_left]. now rewrite N.shiftr_0_r.
+  - rewrite iter_S. cbn [lsb_bits fold_left].
+    rewrite (split_low_bit b) at 1. rewrite <- N.lxor_assoc, step_l_lxor, step_l_even.
+    change (step_l rp (N.lxor v (if N.testbit b 0 then 1 else 0))) with (feed_l rp v (N.testbit b 0)).
+    rewrite IH, N.shiftr_shiftr, Nat2N.inj_succ. f_equal. f_equal. lia.
+Qed.
+
+Lemma lsb_bits_8 b : lsb_bits 8 b = byte_bits_lsb b.
+Proof.
+  unfold byte_bits_lsb. cbn [lsb_bits map]. rewrite !tb_shiftr. reflexivity.
+Qed.
+
+Lemma byte_l_feed v b : b < 2 ^ 8 ->
+  byte_l v b = fold_left (feed_l rp) (byte_bits_lsb b) v.
+Proof.
+  intros Hb. unfold byte_l. rewrite (feed_chain_l 8), lsb_bits_8.
+  replace (N.shiftr b (N.of_nat 8)) with 0; [apply N.lxor_0_r|].
+  symmetry. apply N.bits_inj; intro i. rewrite tb_shiftr, N.bits_0.
+  apply (tb_high b 8); [assumption|lia].
+Qed.
+
+End LSB.
+
+Lemma l_init_step_eq rp v : l_init_step rp v = step_l rp v.
+Proof.
+  unfold l_init_step, step_l. cbv zeta. rewrite sig_l_eqb. now destruct (N.testbit v 0).
+Qed.
+
+Lemma pow8_le_bits k : 2 ^ 8 <= 2 ^ bits k.
+Proof. apply N.pow_le_mono_r; [lia|apply bits_ge8]. Qed.
+
+Lemma l_init_entry_eq k rp c : rp < 2 ^ bits k -> c < 2 ^ 8 ->
+  l_init_entry k rp c = iter 8 (step_l rp) c.
+Proof.
+  intros Hrp Hc. unfold l_init_entry. rewrite (iter_ext 8 _ _ (l_init_step_eq rp)).
+  apply trunc_small. apply iter_step_l_lt; [assumption|].
+  eapply N.lt_le_trans; [exact Hc|apply pow8_le_bits].
+Qed.
+
+Lemma crc_bits_l_cons k p b data v :
+  crc_bits_l k p (b :: data) v =
+  crc_bits_l k p data (fold_left (feed_l (bitrev (nbits k) p)) (byte_bits_lsb b) v).
+Proof. unfold crc_bits_l. cbn [flat_map]. now rewrite fold_left_app. Qed.
+
+Lemma rpoly_lt k p : bitrev (nbits k) p < 2 ^ bits k.
+Proof. rewrite <- nbits_bits. apply bitrev_lt. Qed.
+
+Lemma tab_l_entry k p c : p < 2 ^ bits k -> c < 2 ^ 8 ->
+  tab_get (a_crc_l_init k p) c = Some (iter 8 (step_l (bitrev (nbits k) p)) c).
+Proof.
+  intros Hp Hc. unfold a_crc_l_init. cbv zeta. rewrite tab_get_map by exact Hc. f_equal.
+  rewrite a_rev_spec by assumption. apply l_init_entry_eq; [apply rpoly_lt|assumption].
+Qed.
+
+Lemma crcl_byte_correct k p v b : p < 2 ^ bits k -> v < 2 ^ bits k -> b < 2 ^ 8 ->
+  crcl_byte (bits k) (a_crc_l_init k p) v b = Some (byte_l (bitrev (nbits k) p) v b).
+Proof.
+  intros Hp Hv Hb. pose proof (bits_ge8 k). unfold crcl_byte.
+  rewrite tab_l_entry by (assumption || apply land255_lt).
+  rewrite (byte_l_table (bits k)) by (assumption || apply rpoly_lt). reflexivity.
+Qed.
+
+Lemma upd_l_correct k p v b : p < 2 ^ bits k -> v < 2 ^ bits k -> b < 2 ^ 8 ->
+  upd_l k (a_crc_l_init k p) v b = Some (byte_l (bitrev (nbits k) p) v b).
+Proof.
+  intros Hp Hv Hb. destruct k; try (apply crcl_byte_correct; assumption).
+  cbn [upd_l]. unfold crc8_byte. cbn [bits] in *.
+  rewrite tab_l_entry by (try apply lxor_lt; assumption). reflexivity.
+Qed.
+
+Theorem crc_l_table_eq_bits_aux k p data : p < 2 ^ bits k -> Forall (fun b => b < 2 ^ 8) data ->
+  forall v, v < 2 ^ bits k ->
+  a_crc_l k (a_crc_l_init k p) data v = Some (crc_bits_l k p data v).
+Proof.
+  intros Hp Hd. pose proof (bits_ge8 k) as H8. induction Hd as [|b data Hb Hd IH]; intros v Hv.
+  - reflexivity.
+  - unfold a_crc_l in *. cbn [crc_loop]. rewrite upd_l_correct by assumption.
+    rewrite IH by (apply (byte_l_lt (bits k)); assumption || apply rpoly_lt).
+    rewrite crc_bits_l_cons, <- (byte_l_feed (bits k)) by (assumption || apply rpoly_lt). reflexivity.
+Qed.
+
+(* ======================================================================================== *)
+(* reflection: the bit mirror conjugates the MSB-first register into the LSB-first one       *)
+
+Section Reflect.
+Variable n : nat.
+Variable p : N.
+Hypothesis Hn : 1 <= N.of_nat n.
+Let w := N.of_nat n.
+
+Lemma R_shift x : bitrev n (trunc w (N.shiftl x 1)) = N.shiftr (bitrev n x) 1.
+Proof.
+  apply N.bits_inj; intro i. rewrite tb_shiftr, !tb_bitrev, tb_trunc, tb_shiftl. fold w.
+  destruct (N.ltb_spec i w) as [Hi|Hi]; cbn [andb].
+  - destruct (N.ltb_spec (w - 1 - i) w); [|lia]. cbn [andb].
+    destruct (N.ltb_spec (i + 1) w) as [Hj|Hj].
+    + destruct (N.leb_spec 1 (w - 1 - i)); [|lia]. cbn [andb]. f_equal. lia.
+    + destruct (N.leb_spec 1 (w - 1 - i)); [lia|]. reflexivity.
+  - destruct (N.ltb_spec (i + 1) w); [lia|reflexivity].
+Qed.
+
+Lemma R_top x : N.testbit (bitrev n x) 0 = N.testbit x (w - 1).
+Proof.
+  rewrite tb_bitrev. fold w. destruct (N.ltb_spec 0 w); [|lia]. cbn [andb]. f_equal. lia.
+Qed.
+
+Lemma reflect_step x : bitrev n (step_m w p x) = step_l (bitrev n p) (bitrev n x).
+Proof.
+  unfold step_m, step_l. cbv zeta. rewrite R_top.
+  destruct (N.testbit x (w - 1)).
+  - now rewrite bitrev_xlinear, R_shift.
+  - apply R_shift.
+Qed.
+
+Lemma R_topbit : bitrev n (N.shiftl 1 (w - 1)) = 1.
+Proof.
+  apply N.bits_inj; intro i. rewrite tb_bitrev, tb_shiftl, !tb_one. fold w.
+  destruct (N.ltb_spec i w); destruct (N.leb_spec (w - 1) (w - 1 - i));
+    destruct (N.eqb_spec (w - 1 - i - (w - 1)) 0); destruct (N.eqb_spec i 0); cbn [andb];
+    try reflexivity; lia.
+Qed.
+
+Lemma R_zero : bitrev n 0 = 0.
+Proof. apply N.bits_inj; intro i. rewrite tb_bitrev, !N.bits_0. apply andb_false_r. Qed.
+
+Lemma reflect_feed v b : bitrev n (feed_m w p v b) = feed_l (bitrev n p) (bitrev n v) b.
+Proof.
+  unfold feed_m, feed_l. rewrite reflect_step, bitrev_xlinear. f_equal. f_equal.
+  destruct b; [apply R_topbit|apply R_zero].
+Qed.
+
+Lemma reflect_fold bs : forall v,
+  bitrev n (fold_left (feed_m w p) bs v) = fold_left (feed_l (bitrev n p)) bs (bitrev n v).
+Proof.
+  induction bs as [|b bs IH]; intro v; [reflexivity|]. cbn [fold_left]. now rewrite IH, reflect_feed.
+Qed.
+
+End Reflect.
+
+Lemma byte_bits_reflect b : byte_bits_lsb b = byte_bits_msb (bitrev 8 b).
+Proof.
+  unfold byte_bits_lsb, byte_bits_msb. cbn [map]. rewrite !tb_bitrev. reflexivity.
+Qed.
+
+Lemma flat_map_reflect data :
+  flat_map byte_bits_lsb data = flat_map byte_bits_msb (map (bitrev 8) data).
+Proof.
+  induction data as [|b data IH]; [reflexivity|]. cbn [flat_map map]. now rewrite IH, byte_bits_reflect.
+Qed.
+
+Theorem crc_bits_reflect k p data v :
+  crc_bits_l k p data (bitrev (nbits k) v) =
+  bitrev (nbits k) (crc_bits_m (bits k) p (map (bitrev 8) data) v).
+Proof.
+  unfold crc_bits_l, crc_bits_m. rewrite flat_map_reflect, <- nbits_bits.
+  symmetry. apply reflect_fold. rewrite nbits_bits. pose proof (bits_ge8 k). lia.
+Qed.
+
+Lemma bitrev8_lt b : bitrev 8 b < 2 ^ 8.
+Proof. apply (bitrev_lt 8). Qed.
+
+Lemma Forall_bitrev8 data : Forall (fun b => b < 2 ^ 8) (map (bitrev 8) data).
+Proof. apply Forall_forall. intros x Hx. apply in_map_iff in Hx as [y [<- _]]. apply bitrev8_lt. Qed.
+
+Theorem crc_reflect_aux k p data v : p < 2 ^ bits k -> v < 2 ^ bits k ->
+  Forall (fun b => b < 2 ^ 8) data ->
+  a_crc_l k (a_crc_l_init k p) data v =
+  option_map (bitrev (nbits k))
+    (a_crc_m k (a_crc_m_init k p) (map (bitrev 8) data) (bitrev (nbits k) v)).
+Proof.
+  intros Hp Hv Hd.
+  rewrite crc_l_table_eq_bits_aux by assumption.
+  rewrite crc_m_table_eq_bits_aux by (try apply Forall_bitrev8; try apply rpoly_lt; assumption).
+  cbn [option_map]. f_equal.
+  rewrite <- crc_bits_reflect. f_equal. symmetry. apply bitrev_involutive. now rewrite nbits_bits.
+Qed.
+
+(* the same with the library's own reversal routines in place of the reference mirror *)
+Theorem crc_reflect_c_aux k p data v : p < 2 ^ bits k -> v < 2 ^ bits k ->
+  Forall (fun b => b < 2 ^ 8) data ->
+  a_crc_l k (a_crc_l_init k p) data v =
+  option_map (a_rev k)
+    (a_crc_m k (a_crc_m_init k p) (map a_u8_rev data) (a_rev k v)).
+Proof.
+  intros Hp Hv Hd. rewrite crc_reflect_aux by assumption.
+  rewrite (a_rev_spec k v) by assumption.
+  replace (map a_u8_rev data) with (map (bitrev 8) data).
+  - rewrite crc_m_table_eq_bits_aux by (try apply Forall_bitrev8; try apply rpoly_lt; assumption).
+    cbn [option_map]. f_equal. symmetry. apply a_rev_spec.
+    apply crc_bits_m_lt; [assumption|apply rpoly_lt].
+  - apply map_ext_in. intros b Hb. symmetry. apply a_u8_rev_spec.
+    rewrite Forall_forall in Hd. now apply Hd.
+Qed.
